@@ -148,7 +148,6 @@ Proof.
     { destruct HM as ((A & B & C) & D). split; [|exact D]. repeat split; auto. }
     split; [eapply Mq_M; exact H2|exact H2].
   - destruct val as [[n|l|r]|]; try (now apply IH).
-    destruct (would_wait c v r); [reflexivity|].
     apply wp_bind. eapply wp_mono; [intros s0 Hs0; exact Hs0| |apply (m_put v st r HM)].
     intros [v' ok] st' (H & _). cbn [fst snd] in *. destruct ok; [now apply IH|].
     apply IH. eapply Mq_ext; [| |exact H]; reflexivity.
